@@ -215,7 +215,19 @@ class Harness:
             return {"status": "spec_error", "clause": "old()", "detail": f"{type(e).__name__}: {e}"}
         if self.setup is not None:
             self.setup(args)
-        unpatch = self.patch_clock(ns)
+        unpatch_clock = self.patch_clock(ns)
+        undo = []
+        for tgt, expr in getattr(c, "externals", {}).items():
+            modname, fname = tgt.split(":")
+            mod = importlib.import_module(modname)
+            val = eval(expr, ns)  # pylint: disable=eval-used
+            undo.append((mod, fname, getattr(mod, fname)))
+            setattr(mod, fname, (lambda v: (lambda *a, **k: v))(val))
+
+        def unpatch():
+            unpatch_clock()
+            for mod, fname, orig in undo:
+                setattr(mod, fname, orig)
         exc = None
         result = None
         async def _call():
